@@ -108,5 +108,12 @@ func Restore(r io.Reader, dstPath string) (int64, error) {
 		}
 	}
 
+	// The stream must end where the header says it does. Bytes left over mean
+	// the header does not describe the data that was sent.
+	var extra [1]byte
+	if n, _ := io.ReadFull(r, extra[:]); n > 0 {
+		return totalRead + int64(n), fmt.Errorf("snapshot stream has data beyond the files declared in its header")
+	}
+
 	return totalRead, nil
 }
